@@ -17,6 +17,12 @@ struct RunOpt
   bool rotateBlocks = true;
 };
 
+// debugging aid (C01_DEBUG=1): let the library's messages through
+static void dbgMsg(const char* s) { vf::diag(std::string("LIB: ") + s); }
+static void dbgOn()
+{
+  if (getenv("C01_DEBUG")) { redefine_message(dbgMsg); redefine_error(dbgMsg); }
+}
 static std::string topo(const KCase& c) { return c.heterotopic() ? "heterotopic" : "isotopic"; }
 
 // library matrix -> long double matrix
@@ -63,12 +69,30 @@ static void runC01(const KCase& c, Ctx& ctx, const RunOpt& ro)
   if (out.err != 0) { ctx.fail(c.key("kriging-error"), "kriging() returns an error on a valid configuration"); return; }
   if (!out.cols) { ctx.fail(c.key("kriging-columns"), "kriging() did not create the documented result columns Kriging.<var>.estim/stdev/varz"); return; }
 
-  int nChecked = 0, nIll = 0, maxNb = 0;
+  int nChecked = 0, nIll = 0, maxNb = 0, nNaT = 0;
   double kapMax = 0;
+  std::string deferredKey, deferredMsg;
   for (int k = 0; k < nt; k++)
   {
     TargetGeom g = orc.geom(k, w, ro.rotateBlocks);
     NbRef nr = refNeigh(c, g.x0.data());
+    if (!c.ftdef(k))
+    {
+      // no drift value at the target: there is no kriging system, hence no estimate
+      ctx.label("target:undefined-extdrift");
+      for (int tv = 0; tv < nv; tv++)
+      {
+        double e = out.estim[(size_t)(k * nv + tv)], s = out.stdev[(size_t)(k * nv + tv)];
+        if ((!isNA(e) || !isNA(s)) && deferredKey.empty())
+        {
+          // reported after the other targets have been checked (recorded finding: the search goes on behind it)
+          deferredKey = c.key("extdrift-undefined-target");
+          deferredMsg = fmt("target %d has an undefined external drift but gets estim %.12g stdev %.12g instead of undefined values", k, e, s);
+        }
+      }
+      nNaT++;
+      continue;
+    }
     if (nr.ambiguous) { ctx.label("target:ambiguous-neigh"); continue; }
     if (nr.empty()) { ctx.label("target:empty-neigh"); continue; }
 
@@ -263,6 +287,7 @@ static void runC01(const KCase& c, Ctx& ctx, const RunOpt& ro)
     }
   }
 
+  if (!deferredKey.empty()) { ctx.fail(deferredKey, deferredMsg); return; }
   if (kapMax > 0) ctx.label(fmt("kappa:1e%02d", kapMax > 1e29 ? 99 : (int)std::floor(std::log10(kapMax) / 2) * 2));
   if (nChecked == 0 && nIll > 0) ctx.inconclusive("ill-conditioned");
   if (nIll > 0) ctx.label("some-targets-illcond");
@@ -280,6 +305,12 @@ struct XCase
   int est = 1, std = 1;
   template<class A> void io(A& a) { a("k", k)("est", est)("std", std); }
 };
+static std::string xkey(const std::string& what, const std::string& V)
+{
+  const std::string pre = "xvalid-unique-naF:";
+  if (V.rfind(pre, 0) == 0) return pre + what + ":" + V.substr(pre.size());
+  return what + ":" + V;
+}
 static XCase genXvalid()
 {
   XCase x;
@@ -305,6 +336,13 @@ static void runXvalid(const XCase& x, Ctx& ctx)
   if (!buildWorld(c, w, ctx)) return;
   std::string V = std::string("xvalid:") + c.family() + ":" + (c.moving ? "moving" : "unique");
   int n = c.n(), nv = c.nvar;
+  {
+    // recorded finding: the unique-neighbourhood route addresses the inverse matrix as if the samples without
+    // external drift were part of the system; everything observed there is keyed "xvalid-unique-naF:..."
+    bool naF = false;
+    for (int i = 0; i < n; i++) naF = naF || (c.active(i) && c.anyDef(i) && !c.fdef(i));
+    if (naF && !c.moving) V = "xvalid-unique-naF:" + V;
+  }
   Ctx dummy;
   std::unique_ptr<Model> om = buildModel(c, dummy);
   if (!om) { ctx.fail("harness:model", "second model construction failed"); return; }
@@ -313,8 +351,9 @@ static void runXvalid(const XCase& x, Ctx& ctx)
   double eta = etaIn(c);
 
   ctx.at(V);
+  dbgOn();
   int err = xvalid(w.dbin.get(), w.model.get(), w.neigh.get(), false, x.est, x.std, 0);
-  if (err != 0) { ctx.fail("xvalid-error:" + V, "xvalid() returns an error on a valid configuration"); return; }
+  if (err != 0) { ctx.fail(xkey("xvalid-error", V), "xvalid() returns an error on a valid configuration"); return; }
   std::vector<VectorDouble> E, Sd;
   for (int v = 0; v < nv; v++)
   {
@@ -322,7 +361,7 @@ static void runXvalid(const XCase& x, Ctx& ctx)
     std::string ne = base + (x.est > 0 ? ".esterr" : ".estim"), ns = base + (x.std > 0 ? ".stderr" : ".stdev");
     if (w.dbin->getUID(ne) < 0 || w.dbin->getUID(ns) < 0)
     {
-      ctx.fail("xvalid-columns:" + V, "xvalid() did not create the documented columns " + ne + " / " + ns);
+      ctx.fail(xkey("xvalid-columns", V), "xvalid() did not create the documented columns " + ne + " / " + ns);
       return;
     }
     E.push_back(w.dbin->getColumn(ne, false));
@@ -336,7 +375,7 @@ static void runXvalid(const XCase& x, Ctx& ctx)
   Oracle orx(cx, om.get());
   for (int i = 0; i < n; i++)
   {
-    if (!c.active(i) || !c.anyDef(i)) continue;
+    if (!c.active(i) || !c.anyDef(i) || !c.fdef(i)) continue;
     TargetGeom g;
     g.x0.assign(c.data.p(i), c.data.p(i) + c.ndim);
     NbRef nr = refNeigh(c, g.x0.data(), i);
@@ -369,14 +408,14 @@ static void runXvalid(const XCase& x, Ctx& ctx)
       LD want = (x.est > 0) ? eo - z : eo;
       if (isNA(e) || std::isnan(e) || fabsl((LD)e - want) > tolE)
       {
-        ctx.fail("esterr:" + V, fmt("sample %d var %d: %s = %.15g, leave-one-out kriging gives %.15Lg (tol %.3Lg, kappa %.3g, %d neighbours)", i, v, x.est > 0 ? "Z*-Z" : "Z*", e, want, tolE, kap, (int)nr.nb.size()));
+        ctx.fail(xkey("esterr", V), fmt("sample %d var %d: %s = %.15g, leave-one-out kriging gives %.15Lg (tol %.3Lg, kappa %.3g, %d neighbours)", i, v, x.est > 0 ? "Z*-Z" : "Z*", e, want, tolE, kap, (int)nr.nb.size()));
         return;
       }
       if (x.std < 0)
       {
         if (isNA(s) || std::isnan(s) || s < 0 || fabsl((LD)s * s - std::max((LD)0, vo)) > tolV)
         {
-          ctx.fail("stdev:" + V, fmt("sample %d var %d: S^2 = %.15g, leave-one-out kriging variance %.15Lg (tol %.3Lg, kappa %.3g)", i, v, s * s, vo, tolV, kap));
+          ctx.fail(xkey("stdev", V), fmt("sample %d var %d: S^2 = %.15g, leave-one-out kriging variance %.15Lg (tol %.3Lg, kappa %.3g)", i, v, s * s, vo, tolV, kap));
           return;
         }
       }
@@ -389,7 +428,7 @@ static void runXvalid(const XCase& x, Ctx& ctx)
         LD tolS = tolE / sd + fabsl(wantS) * tolV / (2 * vo) * 2;
         if (isNA(s) || std::isnan(s) || fabsl((LD)s - wantS) > tolS)
         {
-          ctx.fail("stderr:" + V, fmt("sample %d var %d: (Z*-Z)/S = %.15g, leave-one-out kriging gives %.15Lg (tol %.3Lg, kappa %.3g)", i, v, s, wantS, tolS, kap));
+          ctx.fail(xkey("stderr", V), fmt("sample %d var %d: (Z*-Z)/S = %.15g, leave-one-out kriging gives %.15Lg (tol %.3Lg, kappa %.3g)", i, v, s, wantS, tolS, kap));
           return;
         }
       }
@@ -459,6 +498,13 @@ static KCase genFields()
   o.nMax = 24;
   return genCase(o);
 }
+static KCase genEDna()
+{
+  GenOpt o;
+  o.family = 3;
+  o.naFtargPct = 35;
+  return genCase(o);
+}
 static void runStd(const KCase& c, Ctx& ctx) { runC01(c, ctx, RunOpt()); }
 static void runFields(const KCase& c, Ctx& ctx)
 {
@@ -478,5 +524,6 @@ VERIF_SUB(block_rotated, KCase, genBlockRot, runStd);
 VERIF_SUB(verr, KCase, genVerr, runStd);
 VERIF_SUB(intrinsic, KCase, genIntrinsic, runStd);
 VERIF_SUB(krigtest_fields, KCase, genFields, runFields);
+VERIF_SUB(extdrift_undefined, KCase, genEDna, runStd);
 VERIF_SUB(xvalid, XCase, genXvalid, runXvalid);
 VERIF_MAIN()
